@@ -544,7 +544,12 @@ func runJob(job Job, c cache.Cache, as []*analysis.Analyzer) Out {
 
 func main() {
 	cacheDir := flag.String("cache", "", "cache directory")
+	mode := flag.String("mode", "lint", "lint | apply (positions, short ranges, fix application, rewrite functions on stdin lines)")
 	flag.Parse()
+	if *mode == "apply" {
+		applyMain()
+		return
+	}
 	if *cacheDir == "" {
 		fmt.Fprintln(os.Stderr, "need -cache")
 		os.Exit(2)
